@@ -88,20 +88,20 @@ MIN = {
               'threshold_cases': 12, 'threshold_recoveries': 12,
               'sync_checks_no_failure': 500,
               'batch_changed_pri': 70},
-    'thorough': {'lock_cases': 4600, 'lock_convergence_verdicts': 4000,
-                 'pub_fail_xlock': 4300, 'pub_fail_slock': 4300,
-                 'pub_fail_injected': 4300, 'atomic_batches': 500,
-                 'fault_positions_raise': 3800,
-                 'fault_positions_kill': 4200, 'threshold_cases': 80,
-                 'threshold_recoveries': 80,
-                 'sync_checks_no_failure': 5000, 'batch_changed_pri': 450},
+    'thorough': {'lock_cases': 3800, 'lock_convergence_verdicts': 3400,
+                 'pub_fail_xlock': 3600, 'pub_fail_slock': 3600,
+                 'pub_fail_injected': 3600, 'atomic_batches': 420,
+                 'fault_positions_raise': 3200,
+                 'fault_positions_kill': 3500, 'threshold_cases': 70,
+                 'threshold_recoveries': 70,
+                 'sync_checks_no_failure': 4000, 'batch_changed_pri': 380},
 }
 NPAT = 256
 # case kinds are interleaved in cycles of 55 indices: 1 threshold case,
 # 6 atomicity cases, 48 lock-pattern cases (so 16 cycles = 3 x 256 patterns)
 NATOMIC = 6
 CYCLE = 1 + NATOMIC + 48
-CYCLES = {'quick': 16, 'thorough': 96}
+CYCLES = {'quick': 16, 'thorough': 80}
 CASE_TIMEOUT = 600
 
 
